@@ -441,36 +441,95 @@ fn binary_case(cx: &mut CaseCtx, input: Input, cfg: &GenCfg) -> CaseResult {
 }
 
 /// F-01f probe: acyclic chains `S_i { a: S_{i+1}, b: S_{i+1} }` have 2^n containment paths.
+/// CPU time of the calling thread (not wall time: a loaded machine must not turn into a finding).
+fn thread_cpu_time() -> Duration {
+    unsafe {
+        let mut ts: libc::timespec = std::mem::zeroed();
+        if libc::clock_gettime(libc::CLOCK_THREAD_CPUTIME_ID, &mut ts) != 0 {
+            return Duration::ZERO;
+        }
+        Duration::new(ts.tv_sec as u64, ts.tv_nsec as u32)
+    }
+}
+
+pub const GROWTH_SHAPES: u64 = 6;
+
 fn growth_probe(cx: &mut CaseCtx, input: Input) -> CaseResult {
     let which = input.index();
     let depth = 22usize;
     let mut text = String::from("module M\n");
-    match which {
-        0 => {
-            for i in 0..depth {
-                text.push_str(&format!("struct S{i} {{ a: S{}, b: S{} }}\n", i + 1, i + 1));
-            }
-            text.push_str(&format!("struct S{depth} {{}}\n"));
+    let dense_structs = |text: &mut String| {
+        for i in 0..depth {
+            text.push_str(&format!("struct S{i} {{ a: S{}, b: S{} }}\n", i + 1, i + 1));
         }
-        _ => {
+    };
+    let (expect_cycle, class) = match which {
+        0 => {
+            dense_structs(&mut text);
+            text.push_str(&format!("struct S{depth} {{}}\n"));
+            (false, "exponential-time/containment-paths")
+        }
+        1 => {
             for i in 0..depth {
                 text.push_str(&format!("interface I{i} : I{}, J{} {{}}\ninterface J{i} : I{}, J{} {{}}\n", i + 1, i + 1, i + 1, i + 1));
             }
             text.push_str(&format!("interface I{depth} {{}}\ninterface J{depth} {{}}\n"));
+            (false, "exponential-time/inheritance-paths")
         }
-    }
+        2 => {
+            // a type on a cycle with the dense acyclic graph hanging off one of its fields
+            text.push_str("struct C { c: C?, t: S0 }\n");
+            dense_structs(&mut text);
+            text.push_str(&format!("struct S{depth} {{}}\n"));
+            (true, "exponential-time/paths-leaving-a-cycle")
+        }
+        3 => {
+            // the same through an enum and a two-node cycle
+            text.push_str("enum E { Leaf, Node(p: P) }\nstruct P { e: Sequence<E>, t: S0 }\n");
+            dense_structs(&mut text);
+            text.push_str(&format!("struct S{depth} {{}}\n"));
+            (true, "exponential-time/paths-leaving-a-cycle")
+        }
+        4 => {
+            // the dense graph leads into a cycle
+            dense_structs(&mut text);
+            text.push_str(&format!("struct S{depth} {{ back: S{depth}? }}\n"));
+            (true, "exponential-time/paths-into-a-cycle")
+        }
+        _ => {
+            // dense acyclic graph of aliases of anonymous types, used by a struct
+            for i in 0..depth {
+                text.push_str(&format!("typealias T{i} = Dictionary<string, Result<T{}, T{}>>\n", i + 1, i + 1));
+            }
+            text.push_str(&format!("typealias T{depth} = int32\nstruct U {{ t: T0 }}\n"));
+            (false, "exponential-time/alias-paths")
+        }
+    };
     cx.nontrivial = true;
     cx.label("dense-acyclic-graph");
+    cx.label_if(expect_cycle, "dense-graph-next-to-a-cycle");
     cx.sample_with(|| json!({"text": text}));
-    let t0 = Instant::now();
+    if std::env::var_os("VCHECK_NO_COMPILE").is_some() {
+        return Ok(());
+    }
+    let t0 = thread_cpu_time();
     let state = compile_strings(&[text.clone()], None);
-    let dt = t0.elapsed();
-    check!(!state.diagnostics.has_errors(), "dense-graph-rejected", "{}", summarize(&diagnostics_of(state, &Default::default())));
-    // a detector that is polynomial in the size of the input needs microseconds here; an
-    // enumeration of all 2^20 paths needs about a second
-    if dt > Duration::from_millis(400) {
-        let class = if which == 0 { "exponential-time/containment-paths" } else { "exponential-time/inheritance-paths" };
-        fail!(class, "{} bytes of acyclic definitions ({depth} levels, fan-out 2) took {dt:?}: time doubles with every level", text.len());
+    let dt = thread_cpu_time().saturating_sub(t0);
+    let errors = error_codes(&diagnostics_of(state, &Default::default()));
+    if expect_cycle {
+        check!(errors.iter().any(|c| c == "E032"), "cycle-next-to-dense-graph-accepted", "codes {errors:?}");
+    } else {
+        check!(errors.is_empty(), "dense-graph-rejected", "codes {errors:?}");
+    }
+    // a detector that is polynomial in the size of the input needs a few milliseconds of CPU here;
+    // an enumeration of all 2^22 paths needs seconds
+    if dt > Duration::from_millis(600) {
+        if class == "exponential-time/alias-paths" && cx.tolerate_known("F-01h") {
+            // recorded finding (the saved regression input reports it in strict mode)
+            cx.label("known:F-01h");
+            return Ok(());
+        }
+        fail!(class, "{} bytes of definitions ({depth} levels, fan-out 2) took {dt:?} of CPU time: time doubles with every level", text.len());
     }
     Ok(())
 }
@@ -525,7 +584,7 @@ impl Check for C01 {
         let (cfg2, cfg3, cfg4) = (cfg.clone(), cfg.clone(), cfg.clone());
         let corpus = seed_corpus();
         vec![
-            Family::enumerate("growth", 2, 1, growth_probe),
+            Family::enumerate("growth", GROWTH_SHAPES, 1, growth_probe),
             Family::enumerate("types", 22 * 14 * 2 * 2, 1, types_case),
             // (d) containment / alias / inheritance cycles: the C05 enumerators, judged here only for
             // "a verdict within the bound" (a hang is seen by the watchdog)
